@@ -55,13 +55,14 @@ interface t {{
 
 interface j {{
   use t.{{rec}};
-  g: func(r: rec);
+  record jr {{ r: rec }}
+  g: func(r: rec) -> jr;
 }}
 
 interface k {{
   use t.{{en}};
-  use j.{{rec}};
-  h: func(e: en, r: rec);
+  use j.{{rec, jr}};
+  h: func(e: en, r: rec, x: jr);
 }}
 
 world wt {{ import t; export o: func(); }}
